@@ -74,7 +74,9 @@ class Prop:
             "records the invocations of the callback, then one alternative per invocation k answers `raise` there; calc_data_id raising on the "
             "data of the k-th invocation for add / shortcuts / set_data / rename / from_dict (3 levels) / del; (c2) call-INDEX faults of calc_data_id inside from_dict with the same object passed "
             "several times (every k): call-index injection on the implementation must equal the run with the k-th calling item poisoned "
-            "(FaultIndex.step_k), which is what the model evaluates; (d) probes through the raw API "
+            "(FaultIndex.step_k), which is what the model evaluates; (c3) the call ORDER: the invocations of the sort key (x reverse x deep x raising "
+            "keys) and of the filter predicate (verdict tables incl. stop / raise) recorded on the implementation against FaultIndex.sort_calls / "
+            "filter_calls evaluated by vm_compute; (d) probes through the raw API "
             "on bigger trees (clones, typed): ~30 mutating and ~50 read-only operations (save to StringIO and to a file, load, to_dict_list, "
             "to_list_iter, from_dict, visit x 3 orders, find_all / find_first by match / data / data_id / node_id, filtered / copy with "
             "predicates, format, print, iterators, to_dot, to_dotfile, to_mermaid_flowchart, to_rdf_graph, diff x ordered x reduce), each run "
@@ -110,8 +112,8 @@ class Prop:
               "Call indexes: the machine's callbacks are argument-keyed tables; 'the k-th invocation raises whatever its argument' is "
               "FaultIndex.step_k (poisoned operation) - for calc_data_id inside from_dict, where one object can be passed twice, the harness runs "
               "the implementation both with call-index injection and with the poisoned items, requires identical behaviour and lets run_mut "
-              "evaluate the poisoned history; FaultIndex.sort_calls / filter_calls (the call ORDER) are not evaluated by the correspondence - the "
-              "theorems hold for every order, the harness takes the order from the implementation's clean run.  "
+              "evaluate the poisoned history; FaultIndex.sort_calls / filter_calls (the call ORDER of sort key and filter predicate) are compared with the "
+              "invocations recorded on the implementation (cases of kind 'order', vm_compute).  "
               "Read-only operations are pure functions of a forest in their models (Traverse.v, DictList.v, Filter.v): 'the tree is unchanged' "
               "cannot be a theorem there and is NOT claimed as one - it is checked on the implementation only, by the snapshot oracle of "
               "run_probes (~50 read-only calls, clean and with an exception at every invocation k of their callback, deep pointer snapshot "
@@ -204,6 +206,24 @@ class Prop:
                     hs, _ = M.calc_fault_hists(univ, setup, op, fn="name")
                     for h in hs:
                         yield dict(kind="hist", univ=h["univ"], ops=h["ops"], label="calc-fault")
+        # (c3) the call ORDER the model's call indexes refer to
+        oshapes = PROBE_SHAPES[:2] if quick else PROBE_SHAPES + [s_ for s_ in H.forests(3)]
+        for shape in oshapes:
+            st = M.two_tree_setup(shape, "distinct", False)
+            univ, setup, nodes, other = st
+            n = H.shape_size(shape)
+            ids = list(range(1, n + 1))
+            ops = []
+            for p in [0] + ids[:2]:
+                for rev in (False, True):
+                    for deep in (False, True):
+                        ops.append(["sort", 0, p, {"tbl": {str(i): "abc"[(i * 7 // 3) % 3] for i in ids}}, rev, deep])
+                ops.append(["sort", 0, p, {"tbl": {str(ids[-1]): None}}, False, True])
+                ops.append(["sort", 0, p, {"tbl": {str(ids[n // 2]): None}}, True, True])
+                for vd in ({}, {str(i): ["F", "T", "skip_keep", "select", "F", "stop"][i % 6] for i in ids},
+                           {str(i): ["T", "skip", "F", "raise"][i % 4] for i in ids}, {str(i): ["F", "F", "T"][i % 3] for i in ids}):
+                    ops.append(["filter", 0, p, vd])
+            yield dict(kind="order", univ=univ, setup=setup, ops=ops, label="call order")
         # (c2) call-index faults of calc_data_id in from_dict with the SAME object passed several times
         for shape in (((),), ((), ((),))) if quick else (((),), ((), ((),)), (((), ()),)):
             st = M.two_tree_setup(shape, "distinct", False)
@@ -212,7 +232,7 @@ class Prop:
             leaf = H.shape_size(shape)
             for items in ([[f1, None, []], [f2, None, [[f1, None, []]]]],
                           [[f1, None, [[f2, None, []], [f3, "Z", [[f2, None, []]]]]], [f2, None, [[f1, None, []]]]],
-                          [[f1, None, []], [f1, "other", []], [f2, None, [[f1, None, [[f1, "deep", []]]]]]]):
+                          [[f1, None, []], [f1, "other", []], [f2, None, [[f1, None, [[f1, "deep", []]]]]]])[:2 if quick else 3]:
                 for k in range(M.count_calling_items(items) + 1):
                     yield dict(kind="fdk", univ=univ, setup=setup, ti=0, p=leaf, items=items, k=k, fresh=fresh, label="from_dict call index")
         # (d) probes through the raw API
@@ -225,7 +245,7 @@ class Prop:
                         continue
                     yield dict(kind="probe", univ=st[0], setup=st[1], typed=ty, label=lname + ("/typed" if ty else ""))
         # (e) random histories
-        nrand = 12 if quick else 160
+        nrand = 8 if quick else 160
         for i in range(nrand):
             n_ops = rng.randint(8, 25 if quick else 40)
             h = (mut.gen_malformed if i % 2 == 0 else mut.gen_random)(rng, n_ops)
@@ -237,6 +257,11 @@ class Prop:
                 yield dict(kind="hist", univ=desc["univ"], ops=desc["setup"] + [alt])
             return
         if desc["kind"] == "fdk":
+            return
+        if desc["kind"] == "order":
+            if len(desc["ops"]) > 1:
+                for o in desc["ops"]:
+                    yield dict(kind="order", univ=desc["univ"], setup=desc["setup"], ops=[o], label="call order")
             return
         if desc["kind"] == "probe":
             # one probe at a time (the names of the failing probes), then the same on the smallest two-tree setup
@@ -275,6 +300,14 @@ class Prop:
             if fails:
                 op, (si, name, msg) = fails[0]
                 fail = f"{name}: {msg} [op {op}]"
+        elif desc["kind"] == "order":
+            r = M.replay13(dict(univ=desc["univ"], ops=desc["setup"]))
+            term, obs = mut.coq_case(r), r.obs
+            msg, ncmp = M.call_order_check(desc["univ"], desc["setup"], desc["ops"])
+            stats = dict(kind="callback call order", compared=ncmp)
+            nontrivial = ncmp > 0
+            if msg:
+                fail = "call-order: " + msg
         elif desc["kind"] == "fdk":
             r, msg = M.run_from_dict_k(desc["univ"], desc["setup"], desc["ti"], desc["p"], desc["items"], desc["k"], desc["fresh"])
             term, obs = mut.coq_case(r), r.obs
